@@ -163,7 +163,32 @@ def _check_parity(case, distinct):
     n_min = _check_selection(errs, maxg, cw, bi, "(1-cw)*error + cw*max(gamma) =", preds)
     _check_delegation(gs, case, bi, proba=True)
 
+    # the same multiplier vectors handed over through the documented ``grid=`` argument, in reversed column
+    # order: one predictor per supplied vector, with the same objective / constraint values, and a selected
+    # model that is as good as before
+    if case.get("user_grid"):
+        import fairlearn.reductions as fr
+
+        G = gs.lambda_vecs_.iloc[:, ::-1].copy()
+        swn2 = bool(case.get("swn"))
+        gs2 = fr.GridSearch((ExactTableW if swn2 else ExactTable)(tie=case.get("tie", 0)), R.build_moment(case),
+                            constraint_weight=cw, grid=G, **({"sample_weight_name": "w"} if swn2 else {}))
+        gs2.fit(X, R.build_vector(case, case["y_kind"], case["y"]),
+                sensitive_features=R.build_vector(case, case["sf_kind"], R.group_labels(case)))
+        need(len(gs2.predictors_) == grid_size, f"user grid of {grid_size} vectors produced {len(gs2.predictors_)} predictors")
+        need(np.allclose(np.asarray(gs2.lambda_vecs_.values, float), np.asarray(G.values, float), rtol=0, atol=0),
+             "lambda_vecs_ differs from the user-supplied grid")
+        for k in range(grid_size):
+            j = grid_size - 1 - k
+            need(abs(float(gs2.objectives_[k]) - errs[j]) <= TOL_REC,
+                 f"user grid: objectives_[{k}] = {float(gs2.objectives_[k])!r}, the predictor of the same vector had error {errs[j]!r}")
+        v2 = (1 - cw) * float(gs2.objectives_[gs2.best_idx_]) + cw * float(np.max(P.gamma(np.asarray(gs2.predictors_[gs2.best_idx_].predict(X)))))
+        v1 = (1 - cw) * errs[bi] + cw * maxg[bi]
+        need(abs(v1 - v2) <= 1e-9, f"user grid (reversed order): selected trade-off value {v2!r}, generated grid selected {v1!r}")
+
     tags = ["m:" + case["moment"], "groups%d" % len(P.group_values)]
+    if case.get("user_grid"):
+        tags.append("user_grid")
     n_distinct = len(set(preds))
     if n_distinct >= 3 and errs[bi] > float(errs_H.min()) + 1e-12:
         tags.append("nt")
